@@ -127,20 +127,24 @@ def search(ctx, focus=(), deep=1):
 
 
 def check(ctx):
-    ctx.rule = ('proof: for every table set with empty _repeat_bursts and every instance state, a frame longer than a repeat marker gets the same rejection or a code of the same identity '
+    ctx.rule = ('proof: C07_wrapper for the protocols whose traced decode() trees meet the kernel-checked obligation c07OK: with ANY well-formed code held, a frame longer than a repeat marker gets the same '
+                'rejection as on a decoder without history or a code reporting the same parameters (every pair of compatible paths of the held-key tree and the no-history tree agrees); '
+                'for every table set with empty _repeat_bursts and every instance state, a frame longer than a repeat marker gets the same rejection or a code of the same identity '
                 'as on a history-free decoder (C07_history_independent); the repeat branch only accepts short inputs; correspondence: real IrProtocolBase.decode histories vs model; '
                 'search: all real protocols: histories (depth 1-2, thorough 3) over {full A, full B, repeat frame, garbage, encode()} x delivery of queued release callbacks '
                 '{immediately, before the probe, after the probe} x probe {B, A}; oracle = a fresh decoder. distinct = (protocol, history, delivery, probe)')
-    tabs, ok = engine_prove.prove(ctx, MODULES, with_obligations=False)
+    tabs, ok = engine_prove.prove(ctx, MODULES, with_obligations=False, with_wrappers=True)
     import fingerprint
     changed_p, changed_e = fingerprint.changed()
     r = vlib.rng('c07corr')
     try:
         ec.standard_correspondence(ctx, r, per_proto=2 if not ctx.thorough else 6, focus=changed_p)
+        from props import wrap_common
+        wrap_common.correspondence(ctx, vlib.rng('c07wrap'), tabs, getattr(ctx, 'winfo', {}), per_proto=3 if not ctx.thorough else 12, focus=changed_p | engine_prove.failed_protocols(ctx))
     except Exception:
         import traceback
         ctx.oblige('correspondence_driver', False, traceback.format_exc()[-500:])
-    search(ctx, changed_p, deep=3 if changed_e else 1)
+    search(ctx, changed_p | engine_prove.failed_protocols(ctx), deep=3 if changed_e else 1)
 
 
 def replay(path):
